@@ -69,7 +69,8 @@ def arrays(mod, pstate):
     mod.to_jax()
     params = mod.get_all_parameters(pstate, voltage_solver="jaxley.thomas")
     states = mod.get_all_states(pstate, params, 0.025)
-    return {**{k: np.asarray(v, dtype=np.float64) for k, v in params.items() if k != "axial_conductances"},
+    # `axial_conductances` is derived from radius / length / axial_resistivity / capacitance: it is part of what is simulated
+    return {**{k: np.asarray(v, dtype=np.float64) for k, v in params.items()},
             **{k: np.asarray(v, dtype=np.float64) for k, v in states.items() if not k.startswith("i_")}}
 
 
@@ -151,17 +152,50 @@ def run(args):
                 bad = [i for i in outside if not (a_tr[k][i] == base[k][i] or (np.isnan(a_tr[k][i]) and np.isnan(base[k][i])))]
                 if bad:
                     R.spec_fail(dict(kind="trainable-touches-unselected-rows"), f"trainable {key} on rows {holds} changed unselected rows {bad}", inp, bad)
+            elif k == "axial_conductances" and key in ("radius", "length", "axial_resistivity", "capacitance"):
+                continue          # derived from these keys: compared between the routes above, not against the untouched arrays
             elif not np.array_equal(a_tr[k], base[k], equal_nan=True):
                 R.spec_fail(dict(kind="trainable-touches-other-key"), f"trainable {key} changed array {k}", inp, k)
         # model: applyPstate on the bit patterns
         sc_lines.append(" ".join(["scat", ",".join(str(f2b(x)) for x in base[key])] + [";".join(",".join(map(str, row)) for row in inds.tolist()),
                                   ",".join(str(f2b(val)) for _ in range(len(inds)))]))
         sc_meta.append((inp, a_tr[key].tolist()))
-        # ---------- (d) write_trainables stores what was simulated
+        # ---------- (c') the three routes SIMULATE the same (every 4th case; geometry / electrical keys always)
+        if t % 4 == 0 or key in ("radius", "length", "axial_resistivity", "capacitance"):
+            try:
+                for m_ in (mod, m_set):
+                    m_.delete_recordings(); m_.delete_stimuli()
+                    m_.select(nodes=list(range(n))).record("v", verbose=False)
+                    m_.select(nodes=[0]).stimulate(jnp.asarray(0.2 * np.ones(6)), verbose=False)
+                backend = ["jaxley.stone", "jax.sparse"][t % 2]
+                r_set = np.asarray(jx.integrate(m_set, voltage_solver=backend))
+                r_ds = np.asarray(jx.integrate(mod, param_state=ps, voltage_solver=backend))
+                r_tr = np.asarray(jx.integrate(mod, params=p, voltage_solver=backend))
+                R.evaluations += 1; R.count("routes-simulated")
+                for name, r_ in (("data_set", r_ds), ("make_trainable", r_tr)):
+                    if r_.shape != r_set.shape or not np.allclose(r_, r_set, rtol=1e-9, atol=1e-9, equal_nan=True):
+                        R.spec_fail(dict(kind="route-simulates-differently", route=name), f"{name}({key}={val}) simulates differently from set() "
+                                    f"(max {float(np.nanmax(np.abs(r_ - r_set))) if r_.shape == r_set.shape else 'shape'})", dict(inp, backend=backend), None)
+            except AssertionError:
+                R.count("routes-simulated:refused")
+            finally:
+                for m_ in (mod, m_set):
+                    m_.delete_recordings(); m_.delete_stimuli()
+        # ---------- (d) write_trainables stores what was simulated — also when the tables were edited since the module was last moved to
+        #            jax: a row OUTSIDE the trainable selection gets a new value in between and must keep it
+        mod.to_jax()
+        outside = [r for r in range(n) if r not in holds and not (isinstance(mod.nodes.loc[r, key], float) and math.isnan(mod.nodes.loc[r, key]))]
+        val2 = float(rng.uniform(0.91, 0.99))
+        if outside:
+            mod.select(nodes=[outside[0]]).set(key, val2)
+            R.count("write_trainables-after-edit")
+        expected = mod.nodes[key].to_numpy().copy()
+        expected[holds] = val
         mod.write_trainables(p)
         tab = mod.nodes[key].to_numpy()
-        if not np.array_equal(tab, a_tr[key], equal_nan=True):
-            R.spec_fail(dict(kind="write_trainables"), f"write_trainables({key}) table differs from the simulated array", inp, tab.tolist())
+        if not np.array_equal(tab, expected, equal_nan=True):
+            R.spec_fail(dict(kind="write_trainables"), f"write_trainables({key}) table {tab.tolist()} differs from the trainable value on rows {holds} and the "
+                        f"current table elsewhere {expected.tolist()}", inp, tab.tolist())
         mod.delete_trainables()
         if len(R.samples) < 3:
             R.samples.append(dict(input=inp, rows=holds, index_groups=inds.tolist()))
